@@ -28,6 +28,44 @@ UNIT = 2600          # ms; 13 * UNIT = 3.38 intervals, no multiple of UNIT below
 STEPS = [1, 2, 4, 6]
 
 
+def fine_ok(ops, interval=10000):
+    """no command of this history lands exactly on a deadline of the running timer (a paused clock makes such a coincidence exact,
+    and which of the two happens first is then not part of the property)"""
+    now, anchor, running, pending = 0, None, False, False
+    for o in ops:
+        if o == 's':
+            anchor, running, pending = now, True, False
+        elif o == 'r':
+            if running:
+                anchor, pending = now, False
+        elif o == 'x':
+            running, pending = False, False
+        else:
+            d = int(o[1:])
+            if not running:
+                now += d
+                continue
+            nxt = anchor + ((now - anchor) // interval + 1) * interval
+            if o[0] == 'a':
+                if now + d == nxt or (now + d > nxt and (now + d - anchor) % interval == 0):
+                    return False
+                if now + d > nxt:
+                    if pending or now + d > nxt + interval:
+                        return True        # an overrun: the model marks it and the rest is not compared
+                    pending = True
+                now += d
+            else:
+                if pending:
+                    pending = False
+                elif nxt - now == d:
+                    return False
+                elif nxt - now < d:
+                    now = nxt
+                else:
+                    now += d
+    return True
+
+
 def gen_cases(ctx):
     rng = core.SplitMix(ctx.seed)
     cases = []
@@ -65,6 +103,31 @@ def gen_cases(ctx):
             else:
                 ops.append('w%d' % (rng.choice(STEPS + [10]) * UNIT))
         cases.append(ops)
+    # fine-grained histories: commands a few milliseconds apart (1 .. 1003 ms), so that anything keyed to "how long ago was the last
+    # reset / start / stop" is exercised; histories in which a command would land exactly on a deadline are dropped (fine_ok)
+    smalls = [1, 3, 97, 249, 250, 251, 499, 1003]
+    fine = []
+    for d1 in smalls:
+        for d2 in smalls[:6]:
+            fine.append(['s', 'a%d' % d1, 'r', 'a%d' % d2, 'r', 'w%d' % (4 * UNIT)])
+            fine.append(['s', 'a%d' % d1, 'x', 's', 'a%d' % d2, 'r', 'w%d' % (4 * UNIT)])
+            fine.append(['s', 'a%d' % d2, 'r', 'w%d' % (4 * UNIT), 'a%d' % d1, 'r', 'a%d' % d2, 'r', 'w%d' % (4 * UNIT)])
+    for _ in range(600 if ctx.tier == 'quick' else 20000):
+        ops = []
+        for _ in range(5 + rng.below(14)):
+            k = rng.below(10)
+            if k < 2:
+                ops.append('s')
+            elif k < 5:
+                ops.append('r')
+            elif k < 6:
+                ops.append('x')
+            elif k < 8:
+                ops.append('a%d' % rng.choice(smalls))
+            else:
+                ops.append('w%d' % (rng.choice([1, 2, 4]) * UNIT))
+        fine.append(ops)
+    cases += [c for c in fine if fine_ok(c)]
     # keep total elapsed time below 50 units so that no command lands on a deadline
     out = []
     for ops in cases:
